@@ -486,9 +486,16 @@ pub async fn run_concurrent_case(backend: &str, seed: u64, rep: &mut Report) -> 
         let shared = { let mut a = w.devices[0].lock().await; let f = *a.create_folder(NewFolderOptions::new("shared".into())).await?.folder.id();
             let (m, s) = note("in-shared", "v0"); a.create_secret(m, s, AccessOptions { folder: Some(f), ..Default::default() }).await?; f };
         for _ in 0..2 { for k in 0..n_dev { let _ = w.sync(k).await; } }
+        let variant = rng.below(4);
         { let mut a = w.devices[0].lock().await;
-          let (m, s) = note(&format!("late-{}", rng.below(100000)), "x"); let _ = a.create_secret(m, s, AccessOptions { folder: Some(shared), ..Default::default() }).await;
+          match variant {
+            // d0 also deletes the folder / renames it / (default) adds a secret to it
+            1 => { let r = a.delete_folder(&shared).await; script.push(format!("d0 deletes the shared folder too -> {}", r.is_ok())); }
+            2 => { let r = a.rename_folder(&shared, format!("renamed-{}", rng.below(100000))).await; script.push(format!("d0 renames the shared folder -> {}", r.is_ok())); }
+            _ => { let (m, s) = note(&format!("late-{}", rng.below(100000)), "x"); let _ = a.create_secret(m, s, AccessOptions { folder: Some(shared), ..Default::default() }).await; }
+          }
           if rng.chance(3, 4) { let _ = a.create_folder(NewFolderOptions::new(format!("other-{}", rng.below(100000)))).await; } }
+        rep.count(&format!("folder-deleted-vs:{}", ["secret-added", "deleted-too", "renamed", "secret-added"][variant as usize]));
         { let mut a = w.devices[1].lock().await; let r = a.delete_folder(&shared).await; script.push(format!("pre-history folder-deleted-vs-edited: d0 secret into shared folder (+ new folder); d1 delete shared folder -> {}", r.is_ok())); }
         if rng.chance(2, 3) { forced = vec![1, 1, 0, 0, 0, 0, 0, 0, 0, 0, 0, 0]; }
     }
